@@ -111,6 +111,7 @@ cD == [a |-> <<10, 0, 0, 0>>, n |-> 25]
 cE == [a |-> <<10, 1, 0, 0>>, n |-> 16]
 Fam5 == {cA, cB, cC, cD, cE}
 Fam3 == {cA, cB, cE}
+Fam2 == {cA, cB}
 b1 == [a |-> <<10, 0, 0, 0>>, n |-> 26]       \* inside A, B, D
 b2 == [a |-> <<10, 0, 0, 128>>, n |-> 26]     \* inside A, B
 b3 == [a |-> <<10, 0, 1, 64>>, n |-> 26]      \* inside A, C
